@@ -375,123 +375,65 @@ u8x	,
     Pad )repeat  f64
     rootA , 	 // @lengthOf(
 	}")).
-Eval vm_compute in ("<<<M1343>>>" ++ check (runes_of_ascii "  options { 
-StringPrefixLenType
-= u64
-
-; ArrayPrefixLenType=	u32
-    ;  FixedStringPadFromLeft =
-    false
-;
-    } packet
-Party{ 
-zchar[
-7]OrderId
-, InTail6{
-
-    repeat
-char[
-1  ] 
-msgKind	,char[
-
-    3]
-Tail ,char[ 
-3 ]
-
-    Flags	,
-i16
-tag7	, 
-}
-
-,@rightPad
-
-    ('0'
-)
-
-    char[
-
-12 ]clOrdID
-	,}
-	packet	Quote
-    {@leftPad
-('0' 
-)
-    char[
-	11]
-price ,repeat  InCount7  { i32
-    x
-,Party,u8  Ref
-
-    , u8 tag7
-, 
-} ,
-	char[]	seqNo
-	,
-
-    Party, } packet  Logon
-{@rightPad(
-
-    '\x00'
-	)
-char[
-    5
-
-]
-	Note,
-
-i16
-    sym
-
-    ,InPrice72{char[	9 ]  Ref
-, zchar[ 1 ]
-    venue , } ,
-    char[]
-
-    clOrdID 
-,	}
-	root
-packet
-Reject {
-    repeat Logon
-
-,
-@leftPad	( ' '
-	)
-    char[
-4
-] seqNo,
-zchar[ 5]
-    Acct
-
+Eval vm_compute in ("<<<M17>>>" ++ check (runes_of_ascii "
+MetaData
+    x{ len
+    crc , float
+    // " ++ [128512]%N ++ runes_of_ascii " emoji
+    asx, i32 uint8x`line1
+line2` ,u16
+tag
+// `tick` ""quote"" 'q'
+//x
+`it's` , As string_
     ,
-	u32
-
-    x,
-    u16
-	f1	@lengthOf(
-
-Body )	, match
-
-x
-
-as
-Body
-{
-[169,	74
-	] 
-:
-Quote
-, 
-45 :
-Party,7
-
-:
-
-    Logon 
-, }
-
-    , }
-")).
+}
+packet metadata {@lengthOf(zchar )// c
+i64_ @calculatedFrom(
+""\" ++ [233]%N ++ runes_of_ascii """	) , //x
+@leftPad
+    ( '\x00' ) zchar[ 10
+] zchar
+    ,
+    lengthOf //x
+string_ ,int @lengthOf( pack
+    ),
+    zchar[ 00 ]
+    Foo , @lengthOf( packetx )
+    @leftPad (
+'\x00'// " ++ [27880; 37322]%N ++ runes_of_ascii "
+) @calculatedFrom(
+    // @lengthOf(
+    ""x y"" )uint16
+len@calculatedFrom( """" )
+`two words` , int8
+    metadata @lengthOf( Foo )`two words`	, // @lengthOf(
+}options
+{ }
+packet
+pack{
+// `tick` ""quote"" 'q'
+//
+f64
+    o , T BodyLength  ,
+    repeat
+    uint8 chars  `" ++ [233]%N ++ runes_of_ascii "`
+    ,repeat
+    // c
+    Logon
+u
+    // " ++ [128512]%N ++ runes_of_ascii " emoji
+    ,@tag(
+    0123456789 )
+char[] repeatCount @lengthOf(// " ++ [27880; 37322]%N ++ runes_of_ascii "
+_x )
+    // c
+    `
+` ,//
+@tag(
+// packet A { u8 x, }
+/// triple
+7 )  repeatCount @calculatedFrom(""packet"" ) `{ , }` , }")).
 Eval vm_compute in ("<<<M1359>>>" ++ check (runes_of_ascii "options {
     FixedStringPadFromLeft = true;
     FixedStringPadChar = '0';
@@ -766,46 +708,64 @@ zchar[
 ,
 
 } ")).
-Eval vm_compute in ("<<<M1927>>>" ++ check (runes_of_ascii "options
+Eval vm_compute in ("<<<M1937>>>" ++ check (runes_of_ascii "
+packet 
+rootA 
+{@tag(
+    0123456789 
+)
+	options1
 
-// @lengthOf(
-  {
-	}	packet charz{
-@rightPad(  ' ' ) 
-@calculatedFrom(""a\\"" )	repeat int crc
+    {	int32
 
-    `two words` 
-,
-string stringy
-	@calculatedFrom(	""a	b"" 
-  // " ++ [128512]%N ++ runes_of_ascii " emoji
-) `// not a comment`
+uint8x
+    `u8 x,`
+    ,
+u8x
+	//x
+// packet A { u8 x, }
+      {  match 
+Header
 
-, 	 //
-  char 
-i8i8 , } MetaData
-    crc	{ 	 // `tick` ""quote"" 'q'
-    crc
-    i64_  `{ , }`
-	,
-    // `tick` ""quote"" 'q'
+as
+    metadata
+    { [
+10
 
-  i32 // c
-    u128
-,	// packet A { u8 x, }
-    BodyLength	Header
-,
-char[	0123456789
+] 
+:	pack} ,	}  ,
+    f64	// `tick` ""quote"" 'q'
+	chars
+
+, 
+} ,
+	@lengthOf(
+    body )u64 
+        // @lengthOf(
+    //
+	Z9_  ,} 
+MetaData
+
+    repeatCount
+{
+zchar[10 ]
+
+string_ ,
+	f64
+
+A	,
+u32  BodyLength
+
+    ,zchar[
+
+    00
     ]
-	    /// triple
-	//
-	Packet
-`u8 x,`
-,
-uint8 repeatCount
-
-, //	t
-  }
+	uint8x
+,trueish leftPad
+	, char[65535]rootA
+, }  
+      //	t
+ 
 ")).
 Eval vm_compute in ("<<<M1366>>>" ++ check (runes_of_ascii "options {
     LittleEndian = true;
@@ -895,22 +855,22 @@ line`,  zchar[ 42 ]	_x
     255 ; u // " ++ [27880; 37322]%N ++ runes_of_ascii "
 = '0'	}
 ")).
-Eval vm_compute in ("<<<M89>>>" ++ check (runes_of_ascii "packet Foo // " ++ [128512]%N ++ runes_of_ascii " emoji
-{@lengthOf( f32a )
-char[
-0123456789 //	t
-] float `u8 x,` ,}
-    packet // a // b
-i64_ {@lengthOf(stringy // packet A { u8 x, }
-)
-    char[] int @calculatedFrom(""{,}"" ) ,@tag(
-007 ) //
-int64
-stringy`" ++ [233]%N ++ runes_of_ascii "` ,  char[]A @calculatedFrom(
-""\" ++ [233]%N ++ runes_of_ascii """
-    )	`doc` ,// " ++ [27880; 37322]%N ++ runes_of_ascii "
-}
-")).
+Eval vm_compute in ("<<<M1435>>>" ++ check (runes_of_ascii "packet float {
+    @rightPad()
+    // c5a
+    // c5b
+    rootA @lengthOf(trueish),
+    // c10
+    stringy @lengthOf(matchKey),// c15a
+    // c15b
+    char[4294967296] pack @lengthOf(uint8x),
+}// c24
+
+root packet trueish {
+    // c28
+    repeat uint64 u128 `line1
+        line2`,
+}")).
 Eval vm_compute in ("<<<M361>>>" ++ check (runes_of_ascii "MetaData BodyLength { uint16 leftPad `" ++ [233]%N ++ runes_of_ascii "` // a // b
 , uint8x asx,
     len lengthOf `// not a comment` ,
